@@ -27,7 +27,8 @@ TDtorB == IsEv("DtorBegin") /\ Consume /\ DtorBegin
 TDtorE == IsEv("DtorEnd") /\ Consume /\ DtorEnd
 \* initialisation with an unusable socket path must fail cleanly (exception), never corrupt memory
 TInitResult == IsEv("InitResult") /\ Consume /\ (Ev.usable = Ev.ok) /\ UNCHANGED ssv
-TEnd == IsEv("SEnd") /\ Consume /\ pendOps = <<>> /\ UNCHANGED ssv
+\* the execution ends with every operation returned and the service destroyed (DtorEnd seen)
+TEnd == IsEv("SEnd") /\ Consume /\ pendOps = <<>> /\ gone /\ UNCHANGED ssv
 TraceNext == TReset \/ TNew \/ TCancel \/ TCall \/ TRet \/ TLin \/ THStart \/ THEnd \/ TSaw \/ TDtorB \/ TDtorE \/ TInitResult \/ TEnd
 TraceSpec == TraceInit /\ [][TraceNext]_tvars
 TraceProgress == TLCSet(1, IF TLCGet(1) < l THEN l ELSE TLCGet(1))
